@@ -206,6 +206,10 @@ func (p *PsUnpacker) FeedRtpBody(rtpBody []byte, rtpts uint32) (err error) {
 	for p.buf.Len() != 0 {
 		rb := p.buf.Bytes()
 		i := 0
+		if len(rb) < 4 {
+			// start code不完整，等待后续数据
+			return nil
+		}
 		code := bele.BeUint32(rb[i:])
 		i += 4
 
@@ -356,6 +360,10 @@ func (p *PsUnpacker) parsePsm(rb []byte, index int) int {
 
 func (p *PsUnpacker) parseAvStream(code int, rtpts uint32, rb []byte, index int) int {
 	i := index
+
+	if len(rb)-i < 2 {
+		return -1
+	}
 
 	// 注意，由于length是两字节，所以存在一个帧分成多个pes包的情况
 	length := int(bele.BeUint16(rb[i:]))
